@@ -57,7 +57,7 @@ def info_valid(ctx, rule="INFO-VALID"):
         ("range maximum", has([("Gt", "p1.value_range@Some.0.1"), ("Le", "p1.value_range@Some.0.1")], V, same, **INT)),
         ("Int16 lower bound excludes i16::MIN, whatever the declared range", has([("Gt", -32768), ("Ge", -32767)], V, const_is, no_range=True, **{"discr(*p1.coltype)": ("==", 0)})),
         ("Int16 upper bound, whatever the declared range", has([("Le", 32767), ("Lt", 32768)], V, const_is, no_range=True, **{"discr(*p1.coltype)": ("==", 0)})),
-        ("Int32 excludes i32::MIN, whatever the declared range", has([("Gt", -2147483648), ("Ge", -2147483647)], V, const_is, no_range=True, **{"discr(*p1.coltype)": ("==", 1)})),
+        ("Int32 excludes i32::MIN, whatever the declared range", has([("Gt", -2147483648), ("Ge", -2147483647), ("Ne", -2147483648)], V, const_is, no_range=True, **{"discr(*p1.coltype)": ("==", 1)})),
         ("unlimited width when max_len == 0", has([("Eq", 0), ("Ne", 0)], "p1.coltype@Str.0", const_is, **{"discr(*p2)": ("==", 2)})),
         ("length counted in characters", any(o in ("Le", "Gt") and "Iterator>::count(core::str::<impl str>::chars(" in x and y == "p1.coltype@Str.0" for (o, x, y, fa) in bins)),
     ]
@@ -99,14 +99,34 @@ def info_valid(ctx, rule="INFO-VALID"):
     ctx.check(ok, rule, "category validation", "", "is_valid_value does not run category.validate(string) when a category is set", f.loc(), fn=f.name, key=rule + "|category")
     en = [c for c in cs if c[1].endswith("<impl [T]>::contains")]
     ok = len(en) == 1 and "p1.enum_values" in en[0][2][0] and "p2@Str.0" in en[0][2][1] and has_fact(S, en[0][0], r"is_empty\(&\*p1\.enum_values\)", False)
+    if not en:
+        # membership spelled as enum_values.iter().any(|allowed| allowed == string)
+        for L in lifted_closures(prog, f, S):
+            if L.call_block is None or not (L.param and "p1.enum_values" in L.param):
+                continue
+            nme = cname(prog, f.blocks[L.call_block]["term"])
+            eqs = [[L.val(a) for a in t["args"]] for b, t in L.fn.calls() if re.search(r"PartialEq.*::eq$", cname(prog, t))]
+            if nme.endswith("Iterator::any") and any("p1.enum_values" in " ".join(a) and "p2@Str.0" in " ".join(a) for a in eqs):
+                ok = has_fact(S, L.call_block, r"is_empty\(&\*p1\.enum_values\)", False)
     ctx.check(ok, rule, "enumeration membership", "", "is_valid_value does not test enumeration membership (when an enumeration is set)", f.loc(), fn=f.name, key=rule + "|enum")
     # cross-type arms are constant false: Int in Str column, Str in Int column
+    ret_locals = {0}
+    grew = True
+    while grew:
+        grew = False
+        for bl in f.blocks:
+            for s in bl["stmts"]:
+                if s["lhs"]["l"] in ret_locals and not s["lhs"]["p"] and s["rhs"]["rv"] == "use":
+                    o = s["rhs"]["ops"][0]
+                    if o.get("pl") and not o["pl"]["p"] and o["pl"]["l"] not in ret_locals:
+                        ret_locals.add(o["pl"]["l"])
+                        grew = True
     falses = 0
     for bl in f.blocks:
         if bl["cleanup"]:
             continue
         for s in bl["stmts"]:
-            if s["lhs"]["l"] == 0 and s["rhs"]["rv"] == "use" and s["rhs"]["ops"][0].get("int") == 0:
+            if s["lhs"]["l"] in ret_locals and not s["lhs"]["p"] and s["rhs"]["rv"] == "use" and s["rhs"]["ops"][0].get("int") == 0:
                 fa = {e: tr for (e, tr, g) in S.bool_facts_at(bl["id"])}
                 if (fa.get("discr(*p2)") == ("==", 1) and fa.get("discr(*p1.coltype)") == ("==", 2)) or \
                         (fa.get("discr(*p2)") == ("==", 2) and fa.get("discr(*p1.coltype)") != ("==", 2) and len(fa) <= 2):
@@ -136,7 +156,7 @@ def info_valid(ctx, rule="INFO-VALID"):
             continue
         for s in bl["stmts"]:
             for pl in [o["pl"] for o in s["rhs"].get("ops", []) if o.get("k") in ("copy", "move")] + ([s["rhs"]["pl"]] if "pl" in s["rhs"] else []):
-                if pl["l"] == 1:
+                if pl["l"] == 1 or S.local(pl["l"]).lstrip("&*") == "p1":
                     nm = [e["n"] for e in pl["p"] if isinstance(e, dict) and "f" in e]
                     if nm:
                         reads.add(nm[0])
@@ -146,8 +166,8 @@ def info_valid(ctx, rule="INFO-VALID"):
 
 SHAPES = {
     # category: list of (callee regex, regex over the joined symbolic args) that must all be present in the arm
-    "UpperCase": [(r"Iterator::any$", r"."), ],
-    "LowerCase": [(r"Iterator::any$", r"."), ],
+    "UpperCase": [(r"Iterator::(any|all)$", r"."), ],
+    "LowerCase": [(r"Iterator::(any|all)$", r"."), ],
     "Integer": [(r"<impl str>::parse$", r"")],
     "DoubleInteger": [(r"<impl str>::parse$", r"")],
     "Identifier": [(r"<impl str>::starts_with$", r""), (r"<impl str>::contains$", r"")],
